@@ -1,6 +1,6 @@
 """C03 — AgentSet behaves as an ordered set and its queries match list semantics.
 
-Scenario kind `aset` of lean/Driver/Agents.lean: a population of agents with int attributes
+Scenario kind `aset` of lean/Driver/Agents.lean (protocol in its header): a population of agents with int attributes
 x (always), y (sometimes), z (only after `setattr`), classes T0 <- T1 <- T2 and T3, and the AgentSets
 made so far.  Every op prints its result and a dump of all sets and all attributes, so the copying
 form is checked for not touching its source and the in-place form for equalling the copy.
@@ -19,20 +19,29 @@ THEOREMS = ["Mesa.ASet." + t for t in (
     "C03_select_is_filter_take", "C03_select_limit_bounds", "C03_sort_perm_ordered_stable", "C03_shuffle_is_permutation",
     "C03_groupby_partitions_in_order", "C03_constructor_is_ordered_set", "C03_add_discard_remove",
     "C03_len_iter_contains_getitem_agree", "C03_no_duplicates_all_histories",
-    "C03_inplace_equals_copy_and_copy_preserves", "C03_get_set_agg_map_list_semantics")]
-COUNTS = {"quick": 1000, "thorough": 150000}
+    "C03_inplace_equals_copy_and_copy_preserves", "C03_get_set_agg_map_list_semantics",
+    "C03_set_algebra_members_and_order", "C03_comparisons_are_subset_order", "C03_inplace_operators_match_copying",
+    "C03_index_count_reversed_agree", "C03_operators_pop_clear_on_the_store", "C03_dead_member_leaves_every_set",
+    "C18_agents_remove_absent_reject_unchanged", "C18_agents_sort_missing_key_reject_unchanged",
+    "C18_agents_groupby_missing_key_reject_unchanged", "C18_agents_pop_empty_reject_unchanged",
+    "C18_agents_any_reject_unchanged")]
+COUNTS = {"quick": 1200, "thorough": 150000}
 TRUSTED = [
     "CPython dict / WeakKeyDictionary insertion order; sorted() is a stable sort and reverse=True keeps the order of equal keys (the model uses List.mergeSort)",
     "select(at_most=float): the count int(len*f) is computed on IEEE doubles; the driver recomputes it with Lean Float (same operations), the theorems take the count as a parameter",
     "CPython random.shuffle is built on _randbelow only (scripted generator, Base/Rng.lean follows it draw by draw)",
     "filter / key / map callables are the harness's small total functions; arbitrary Python callables are not modelled",
+    "the operators and methods AgentSet inherits (| & - ^ and in-place forms, comparisons, isdisjoint, pop, clear, index, count, reversed) are CPython's collections.abc mixins over AgentSet's own __contains__/__iter__/__len__/add/discard/__getitem__/_from_iterable; the model follows _collections_abc.py of Python 3.12; a non-iterable operand (TypeError) is answered by the driver, not the model",
 ]
-ASSUMPTIONS = ["all members are strongly referenced (weak-reference effects are C04's subject)",
+ASSUMPTIONS = ["members die only between operations (`kill`: removed from the model and dropped by the program); death in the middle of a call is C04's subject",
                "at_most is inf, a non-negative int, or a float in [0, 1]; IEEE ties of len*f just below an integer are excluded (DESIGN §2)"]
 RULE = ("random op sequences on 0-9 agents (one class or mixed subclasses, tie-heavy attribute values, optional attribute y) and on every "
         "set derived so far: AgentSet(...) incl. duplicates, select (predicates x agent_type x at_most in inf/int/fraction x inplace), "
         "sort (attribute / callable / missing key, asc/desc, inplace), shuffle (scripted), groupby (agentset/list), get (one/many, "
-        "error/default/bogus), set, agg, map, [], slices, add, discard, remove, in, len; non-trivial = a set of >= 3 members went through "
+        "error/default/bogus), set, agg, map, [], slices, add, discard, remove, in, len, and (1 op in 5) the inherited mixin methods: "
+        "| & - ^ with a set / the set itself / a list, tuple or generator with duplicates / a non-iterable, reflected forms, |= &= -= ^=, "
+        "<= < >= > == !=, isdisjoint, pop, clear, index with 0-2 bounds, count, reversed; now and then a member dies between two "
+        "operations (weak references: it leaves every set); non-trivial = a set of >= 3 members went through "
         ">= 3 set-returning operations")
 
 NAMES = ["x", "y", "z"]
@@ -114,6 +123,7 @@ class Impl:
         self.Model, self.CLS, self.AgentSet = classes()
         self.model = None
         self.agents, self.sets, self.trace = [], [], []
+        self.tys = []
 
     def need_model(self):
         if self.model is None:
@@ -138,14 +148,17 @@ class Impl:
         raise ValueError(tok)
 
     def snap(self):
+        """(member ids of every set, attributes of every agent, class of every agent); an agent that has died
+        (`kill`) keeps its slot: attributes None, class as it was"""
         return ([[a.id for a in s] for s in self.sets],
-                [tuple(getattr(a, n, None) for n in NAMES) for a in self.agents],
-                [self.CLS.index(type(a)) for a in self.agents])
+                [tuple(getattr(a, n, None) for n in NAMES) if a is not None else (None,) * len(NAMES) for a in self.agents],
+                list(self.tys))
 
     def dump(self):
         sets, attrs, _ = self.snap()
         ss = "|".join(f"S{k}=" + ",".join(map(str, s)) for k, s in enumerate(sets))
-        ags = " ".join(f"{i}:" + "/".join("None" if v is None else str(v) for v in t) for i, t in enumerate(attrs))
+        ags = " ".join(f"{i}:dead" if self.agents[i] is None else f"{i}:" + "/".join("None" if v is None else str(v) for v in t)
+                       for i, t in enumerate(attrs))
         return f"{ss} || {ags}"
 
     def ok(self, res):
@@ -164,6 +177,8 @@ class Impl:
             out = "err Index"
         except ValueError:
             out = "err Value"
+        except TypeError:
+            out = "err Type"
         except (AssertionError, core.ScenarioTimeout):
             raise
         except Exception as e:  # noqa: BLE001
@@ -201,17 +216,56 @@ class Impl:
             a = self.CLS[ty](self.need_model(), x, y)
             a.id = len(self.agents)
             self.agents.append(a)
+            self.tys.append(ty)
             return self.ok(f"id={a.id}")
+        if k == "kill":
+            i = int(w[1])
+            if i >= len(self.agents) or self.agents[i] is None:
+                return "bad-op"
+            # removed from its model, and the program drops the only reference it holds: the agent dies (refcounting)
+            self.agents[i].remove()
+            self.agents[i] = None
+            return self.ok("killed")
         if k == "mk":
-            if any(int(i) >= len(self.agents) for i in w[1:]):
+            if any(int(i) >= len(self.agents) or self.agents[int(i)] is None for i in w[1:]):
                 return "bad-op"  # only the shrinker produces dangling references; the driver says the same
             s = self.AgentSet([self.agents[int(i)] for i in w[1:]], random=self.need_model().random)
             self.sets.append(s)
             self.cur["result_set"] = len(self.sets) - 1
             return self.ok(f"set={len(self.sets) - 1}")
-        if int(w[1]) >= len(self.sets) or (k in ("add", "discard", "remove", "contains") and int(w[2]) >= len(self.agents)):
+        if k in ("setop", "isetop", "cmp"):
+            return self._mixin_binary(w)
+        if int(w[1]) >= len(self.sets) or (k in ("add", "discard", "remove", "contains", "count", "index")
+                                           and (int(w[2]) >= len(self.agents) or self.agents[int(w[2])] is None)):
             return "bad-op"
         s = self.sets[int(w[1])]
+        if k == "disjoint":
+            o = self.other(w[2])
+            if o is None:
+                return "bad-op"
+            r = s.isdisjoint(o[1])
+            self.cur["values"], self.cur["other"] = r, o[0]
+            return self.ok(f"disjoint={1 if r else 0}")
+        if k == "pop":
+            r = s.pop()
+            self.cur["values"] = r.id
+            return self.ok(f"pop={r.id}")
+        if k == "clear":
+            r = s.clear()
+            self.cur["values"] = r
+            return self.ok("cleared")
+        if k == "reversed":
+            r = [a.id for a in reversed(s)]
+            self.cur["values"] = r
+            return self.ok("items=" + ",".join(map(str, r)))
+        if k == "count":
+            r = s.count(self.agents[int(w[2])])
+            self.cur["values"] = r
+            return self.ok(f"count={r}")
+        if k == "index":
+            r = s.index(self.agents[int(w[2])], *map(int, w[3:]))
+            self.cur["values"] = r
+            return self.ok(f"index={r}")
         if k == "select":
             f, inplace = pred_fn(w[2]), w[5] == "1"
             cls = None if w[3] == "-" else self.CLS[int(w[3])]
@@ -316,6 +370,64 @@ class Impl:
             return self.ok(f"in={1 if r else 0}")
         raise ValueError(w)
 
+    def other(self, tok):
+        """right-hand operand: (ids, python object) or None for a dangling reference; glue: a plain iterable
+        travels as a list, a tuple or a generator"""
+        kind, _, rest = tok.partition(":")
+        if kind == "x":
+            return ([], 3)
+        if kind == "s":
+            if int(rest) >= len(self.sets):
+                return None
+            o = self.sets[int(rest)]
+            return ([a.id for a in o], o)
+        ids = [int(i) for i in rest.split(",")] if rest != "-" else []
+        if any(i >= len(self.agents) or self.agents[i] is None for i in ids):
+            return None
+        objs = [self.agents[i] for i in ids]
+        form = len(ids) % 3
+        return (ids, objs if form == 0 else tuple(objs) if form == 1 else (a for a in objs))
+
+    def _mixin_binary(self, w):
+        """the operators AgentSet inherits from collections.abc.Set / MutableSet"""
+        import operator as op
+
+        k, which = w[0], w[1]
+        if int(w[2]) >= len(self.sets):
+            return "bad-op"
+        s = self.sets[int(w[2])]
+        if k == "cmp":
+            if int(w[3]) >= len(self.sets):
+                return "bad-op"
+            t = self.sets[int(w[3])]
+            r = {"le": op.le, "lt": op.lt, "ge": op.ge, "gt": op.gt, "eq": op.eq, "ne": op.ne}[which](s, t)
+            assert r is True or r is False
+            self.cur["values"] = r
+            return self.ok(f"cmp={1 if r else 0}")
+        o = self.other(w[3])
+        if o is None or (which == "rsub" and (k == "isetop" or w[3][0] != "l")):
+            return "bad-op"
+        self.cur["other"] = o[0]
+        try:
+            if k == "setop":
+                if which == "rsub":
+                    r = o[1] - s if not hasattr(o[1], "__next__") else list(o[1]) - s
+                else:
+                    # glue: a plain-iterable operand on the left exercises the reflected methods (__ror__ = __or__, …)
+                    f = {"or": op.or_, "and": op.and_, "sub": op.sub, "xor": op.xor}[which]
+                    if which != "sub" and isinstance(o[1], list) and len(o[0]) % 2:
+                        r = f(o[1], s)
+                    else:
+                        r = f(s, o[1])
+                assert type(r) is self.AgentSet
+                return self.put(s, r, False)
+            f = {"or": op.ior, "and": op.iand, "sub": op.isub, "xor": op.ixor}[which]
+            r = f(s, o[1])
+            self.cur["same_object"] = r is s
+            return self.ok("self")
+        except TypeError:
+            return "err Type"
+
     def close(self):
         core.import_mesa()
         from mesa import Agent
@@ -385,6 +497,55 @@ def gen_atmost(R):
     return f"f:{p}:{q}"
 
 
+MIXIN_P = 0.2
+
+
+def gen_other(R, s, nsets, living, p_self=0.15):
+    k = R.random()
+    if k < p_self:
+        return f"s:{s}"  # the set itself (`a -= a` and `a ^= a` clear it)
+    if k < 0.6 or not living:
+        return f"s:{R.randrange(nsets)}"
+    if k < 0.97:
+        return "l:" + (",".join(str(R.choice(living)) for _ in range(R.randrange(0, 6))) or "-")  # duplicates welcome
+    return "x"
+
+
+def gen_mixin(R, s, nsets, living):
+    """the methods inherited from collections.abc.Set / MutableSet / Sequence"""
+    k = R.random()
+    n = len(living)
+    if not living:
+        return f"{R.choice(['pop', 'clear', 'reversed'])} {s}" if R.random() < 0.5 else f"cmp {R.choice(['le', 'eq', 'lt'])} {s} {R.randrange(nsets)}"
+    an = R.choice(living)
+    if k < 0.34:
+        op = R.choice(["or", "and", "sub", "xor", "and", "xor"])
+        o = gen_other(R, s, nsets, living)
+        if o.startswith("l:") and R.random() < 0.2:
+            op = "rsub"
+        return f"setop {op} {s} {o}"
+    if k < 0.56:
+        return f"isetop {R.choice(['or', 'and', 'sub', 'xor'])} {s} {gen_other(R, s, nsets, living, p_self=0.1)}"
+    if k < 0.72:
+        return f"cmp {R.choice(['le', 'lt', 'ge', 'gt', 'eq', 'ne', 'eq', 'le'])} {s} {R.randrange(nsets)}"
+    if k < 0.77:
+        return f"disjoint {s} {gen_other(R, s, nsets, living, p_self=0.05)}"
+    if k < 0.85:
+        return f"pop {s}"
+    if k < 0.88:
+        return f"clear {s}"
+    if k < 0.92:
+        return f"reversed {s}"
+    if k < 0.94:
+        return f"count {s} {an}"
+    j = R.random()
+    if j < 0.4:
+        return f"index {s} {an}"
+    if j < 0.7:
+        return f"index {s} {an} {R.randrange(-n - 2, n + 2)}"
+    return f"index {s} {an} {R.randrange(-n - 2, n + 2)} {R.randrange(-n - 2, n + 3)}"
+
+
 def gen_scenario(R, rejecting=False):
     lines = ["scenario aset"]
     n = R.choice([0, 1, 2, 3, 5, 6, 8, 9])
@@ -409,19 +570,34 @@ def gen_scenario(R, rejecting=False):
     if R.random() < 0.4:
         lines.append("mk " + " ".join(str(R.randrange(n)) for _ in range(R.randrange(0, 5)) if n))
         nsets += 1
+    living = list(range(n))
     for _ in range(R.randrange(5, 26)):
         s = R.randrange(nsets) if R.random() < 0.5 else nsets - 1 - R.randrange(min(nsets, 2))
         inpl = R.choice([0, 0, 1])
         inpl_sel = 1 if R.random() < 0.12 else 0  # in-place selections empty the sets quickly
         k = R.random()
-        an = R.randrange(n) if n else None
+        an = R.choice(living) if living else None
+        if living and R.random() < 0.04:
+            # a member dies between two operations: every set, original or derived, loses it
+            lines.append(f"kill {an}")
+            living.remove(an)
+            continue
         if rejecting and R.random() < 0.35:
             # calls that raise: the following ops see whether anything was damaged
             opts = ["sort {s} attr:2 desc {i}", "sort {s} attr:1 asc {i}", "get {s} one:2 error", "get {s} one:0 bogus",
-                    "agg {s} 0 min", "agg {s} 2 sum", "map {s} nosuch", "item {s} 40", "item {s} -40", "group {s} attr:2 sets"]
+                    "agg {s} 0 min", "agg {s} 2 sum", "map {s} nosuch", "item {s} 40", "item {s} -40", "group {s} attr:2 sets",
+                    "setop or {s} x", "isetop xor {s} x", "isetop and {s} x", "disjoint {s} x"]
             if an is not None:
-                opts += ["remove {s} {a}", "remove {s} {a}"]
+                opts += ["remove {s} {a}", "remove {s} {a}", "index {s} {a} 30", "index {s} {a} 0 0"]
+            if R.random() < 0.1:
+                lines.append(f"clear {s}")
+                opts = ["pop {s}"]
             lines.append(R.choice(opts).format(s=s, i=inpl, a=an))
+            continue
+        if R.random() < MIXIN_P:
+            lines.append(gen_mixin(R, s, nsets, living))
+            if lines[-1].startswith("setop"):
+                nsets += 1
             continue
         if k < 0.22:
             ty = "-" if R.random() < 0.6 else str(R.randrange(4))
@@ -467,11 +643,18 @@ def fix_set_indices(lines):
     try:
         for l in lines[1:]:
             w = l.split()
-            if w[0] not in ("rng", "agent", "mk"):
+            if w[0] not in ("rng", "agent", "mk", "kill"):
                 ns = len(impl.sets)
                 if ns == 0:
                     continue
-                w[1] = str(int(w[1]) % ns)
+                if w[0] in ("setop", "isetop", "cmp"):
+                    w[2] = str(int(w[2]) % ns)
+                    if w[0] == "cmp":
+                        w[3] = str(int(w[3]) % ns)
+                else:
+                    w[1] = str(int(w[1]) % ns)
+                if w[-1].startswith("s:"):
+                    w[-1] = "s:" + str(int(w[-1][2:]) % ns)
             l = " ".join(w)
             impl.line(l.split())
             out.append(l)
@@ -525,12 +708,33 @@ def _key(tok, attrs, tys, i):
     return {"attr": v, "neg": -v, "mod": v % int(w[2]) if w[0] == "mod" else None}[w[0]]
 
 
+# the only ways a call of this protocol may raise (everything else "never raises")
+LEGITIMATE_ERRORS = {("sort", "Attr"), ("group", "Attr"), ("get", "Attr"), ("get", "Value"), ("agg", "Attr"), ("agg", "Value"),
+                     ("map", "Attr"), ("item", "Index"), ("remove", "Key"), ("pop", "Key"), ("index", "Value"),
+                     ("setop", "Type"), ("isetop", "Type"), ("disjoint", "Type")}
+
+
 def oracle(sc, obs):
+    try:
+        return _oracle(sc, obs)
+    except Exception as e:  # noqa: BLE001 - e.g. a result naming an agent that no longer exists
+        return [f"unjudgeable: the observations cannot be read as list / ordered-set results at all ({type(e).__name__}: {e})"]
+
+
+def _oracle(sc, obs):
     bad = []
+    dead = set()
     for ev in sc.meta.get("trace") or []:
         w = ev["line"].split()
         k = w[0]
         (sets0, attrs0, tys), (sets1, attrs1, _), out = ev["pre"], ev["post"], ev["out"]
+        if k == "kill" and out.startswith("ok"):
+            dead.add(int(w[1]))
+        zombies = sorted({i for t in sets1 for i in t if i in dead})
+        if zombies:
+            # (and nothing else can be judged by list semantics while a set lists an agent that no longer exists)
+            bad.append(f"zombie: after `{ev['line']}` a set still lists agent(s) {zombies}, which died: {sets1}")
+            continue
         for j, s in enumerate(sets1):
             if len(set(s)) != len(s):
                 bad.append(f"nodup: set {j} lists a member twice after `{ev['line']}`: {s}")
@@ -544,8 +748,27 @@ def oracle(sc, obs):
                 bad.append(f"remove: `{ev['line']}` raised KeyError for a member")
             if err == "Unexpected":
                 bad.append(f"crash: `{ev['line']}` raised {out}")
+            if k == "pop" and sets0[int(w[1])]:
+                bad.append(f"pop: `{ev['line']}` raised {err} on the non-empty set {sets0[int(w[1])]}")
+            if k == "index" and err == "Value":
+                try:
+                    i = sets0[int(w[1])].index(int(w[2]), *map(int, w[3:]))
+                    bad.append(f"index: `{ev['line']}` raised ValueError, list semantics give {i}")
+                except ValueError:
+                    pass
+            if err == "Type" and not ev["line"].endswith(" x"):
+                bad.append(f"crash: `{ev['line']}` raised TypeError")
+            if err != "Unexpected" and (k, err) not in LEGITIMATE_ERRORS:
+                bad.append(f"raised: `{ev['line']}` raised {err}; this call never raises in list / ordered-set semantics")
             continue
         if k in ("rng", "agent"):
+            continue
+        if k == "kill":
+            a = int(w[1])
+            if sets1 != [[i for i in t if i != a] for t in sets0]:
+                bad.append(f"kill: after agent {a} died the sets are {sets1}, expected every set of {sets0} without it")
+            if [t for i, t in enumerate(attrs1) if i != a] != [t for i, t in enumerate(attrs0) if i != a]:
+                bad.append(f"kill: the death of agent {a} changed another agent's attributes")
             continue
         if k == "mk":
             ids = [int(x) for x in w[1:]]
@@ -553,12 +776,12 @@ def oracle(sc, obs):
             if sets1[ev["result_set"]] != want or sets1[:-1] != sets0:
                 bad.append(f"mk: AgentSet({ids}) lists {sets1[ev['result_set']]}")
             continue
-        s = int(w[1])
+        s = int(w[2] if k in ("setop", "isetop", "cmp") else w[1])
         L = sets0[s]
 
-        def check_put(want, what, exact=True):
+        def check_put(want, what, exact=True, inplace=None):
             r = ev["result_set"]
-            inplace = w[-1] == "1"
+            inplace = (w[-1] == "1") if inplace is None else inplace
             got = sets1[r]
             if exact and got != want:
                 bad.append(f"{what}: `{ev['line']}` on {L} gave {got}, list semantics give {want}")
@@ -683,7 +906,55 @@ def oracle(sc, obs):
                 bad.append(f"remove: `{ev['line']}` of a non-member did not raise")
             if sets1[s] != want or sets1[:s] + sets1[s + 1:] != sets0[:s] + sets0[s + 1:] or attrs1 != attrs0:
                 bad.append(f"{k}: `{ev['line']}` on {L} gave {sets1[s]}, ordered-set semantics give {want}")
-        if k in ("item", "slice", "len", "contains", "agg", "map") and (sets0, attrs0) != (sets1, attrs1):
+        elif k in ("setop", "isetop"):
+            which, M = w[1], ev["other"]
+            Md = list(dict.fromkeys(M))
+            l_only = [i for i in L if i not in M]
+            m_only = [i for i in Md if i not in L]
+            want = {"or": [L + m_only], "sub": [l_only], "xor": [l_only + m_only], "rsub": [m_only],
+                    # the property fixes the members of an intersection, not whose order it takes
+                    "and": [[i for i in Md if i in L], [i for i in L if i in M]]}[which]
+            if k == "setop":
+                got = check_put(None, "setop", exact=False, inplace=False)
+                if got not in want:
+                    bad.append(f"setop: `{ev['line']}` on {L} and {M} gave {got}, ordered-set semantics give {want[0]}")
+            else:
+                if sets1[s] not in want:
+                    bad.append(f"isetop: `{ev['line']}` on {L} and {M} left {sets1[s]}, ordered-set semantics give {want[-1]}")
+                if not ev["same_object"]:
+                    bad.append(f"isetop: `{ev['line']}` did not return the set itself")
+                if sets1[:s] + sets1[s + 1:] != sets0[:s] + sets0[s + 1:] or attrs1 != attrs0:
+                    bad.append(f"isetop: `{ev['line']}` changed another set or an attribute")
+        elif k == "cmp":
+            A, B = set(L), set(sets0[int(w[3])])
+            want = {"le": A <= B, "lt": A < B, "ge": A >= B, "gt": A > B, "eq": A == B, "ne": A != B}[w[1]]
+            if ev["values"] != want:
+                bad.append(f"cmp: `{ev['line']}` = {ev['values']} for members {L} and {sets0[int(w[3])]}")
+        elif k == "disjoint":
+            if ev["values"] != (not (set(L) & set(ev["other"]))):
+                bad.append(f"isdisjoint: `{ev['line']}` = {ev['values']} for members {L} and {ev['other']}")
+        elif k == "pop":
+            if not L:
+                bad.append(f"pop: `{ev['line']}` on an empty set did not raise")
+            elif ev["values"] != L[0] or sets1[s] != L[1:] or sets1[:s] + sets1[s + 1:] != sets0[:s] + sets0[s + 1:]:
+                bad.append(f"pop: `{ev['line']}` on {L} returned {ev['values']} and left {sets1[s]}; the first member goes")
+        elif k == "clear":
+            if sets1[s] != [] or sets1[:s] + sets1[s + 1:] != sets0[:s] + sets0[s + 1:] or attrs1 != attrs0:
+                bad.append(f"clear: `{ev['line']}` on {L} left {sets1[s]}")
+        elif k == "reversed":
+            if ev["values"] != L[::-1]:
+                bad.append(f"reversed: `{ev['line']}` on {L} gave {ev['values']}")
+        elif k == "count":
+            if ev["values"] != L.count(int(w[2])):
+                bad.append(f"count: `{ev['line']}` = {ev['values']} for members {L}")
+        elif k == "index":
+            try:
+                want = L.index(int(w[2]), *map(int, w[3:]))
+            except ValueError:
+                want = "ValueError"
+            if ev["values"] != want:
+                bad.append(f"index: `{ev['line']}` = {ev['values']}, list semantics give {want} for {L}")
+        if k in ("item", "slice", "len", "contains", "agg", "map", "cmp", "disjoint", "reversed", "count", "index") and (sets0, attrs0) != (sets1, attrs1):
             bad.append(f"{k}: a query changed the state")
     return bad
 
@@ -693,6 +964,8 @@ def nontrivial(sc, obs):
     for ev in sc.meta.get("trace") or []:
         w = ev["line"].split()
         if w[0] in ("select", "sort", "shuffle", "group") and ev["out"].startswith("ok") and len(ev["pre"][0][int(w[1])]) >= 3:
+            n += 1
+        if w[0] in ("setop", "isetop") and ev["out"].startswith("ok") and len(ev["pre"][0][int(w[2])]) >= 3:
             n += 1
     return n >= 3
 
@@ -721,6 +994,10 @@ def tags(sc, obs):
             yield "sort:" + w[3]
         if w[0] in ("select", "sort", "shuffle") and int(w[1]) > 0:
             yield "on-derived-set"
+        if w[0] in ("setop", "isetop"):
+            yield f"{w[0]}:{w[1]}:" + ("self" if w[3] == "s:" + w[2] else "set" if w[3][0] == "s" else "iterable")
+        if w[0] == "cmp":
+            yield f"cmp:{w[1]}:{ev.get('values')}"
 
 
 if __name__ == "__main__":
